@@ -1128,8 +1128,8 @@ func ckGenScenario(seed int64, id int) ckScenario {
 	blockClasses := []int{1, 2, 3, 16, 17, 32, 33, 100, 256, 257, 300}
 	biomeClasses := []int{1, 2, 3, 4, 5, 8, 9, 20, reg.nbiomes}
 	light := rng.Intn(5) >= 2 // two fifths of the chunks carry no light at all
-	wide := id%3 != 0        // a third of the chunks stay within the indirect palettes
-	tight := id%4 != 3       // three quarters: biomes written by one fill of a fresh section or writes to fresh positions only
+	wide := id%3 != 0         // a third of the chunks stay within the indirect palettes
+	tight := id%4 != 3        // three quarters: biomes written by one fill of a fresh section or writes to fresh positions only
 	bioFilled, bioSet := map[int]bool{}, map[int]map[int]bool{}
 	rs := func() int {
 		if rng.Intn(3) == 0 {
